@@ -11,7 +11,8 @@ PROPS["C10"] = P(
     "type on new_unaligned and raw one-padding-word vectors. Blanket Vec<W> impls. BitVec/AtomicBitVec fill/flip/reset/count_ones and par_ variants at every edge length x seven tail "
     "states, plus 210 000-word vectors. Widths: quick = all for u8..u32, a selection of 35-40 for the 64/128-bit types (copy and get_unaligned: all); thorough = all. "
     "distinct_nontrivial = number of distinct cells (word type, operation class, exact width or width class, backing/mode) whose case was non-degenerate: at least one element copied at "
-    "width > 0; len > 1 for apply/chunks/unaligned; len > 1 with a non-zero element for reset; both bit values present for BitVec",
+    "width > 0; len > 1 for apply/chunks/unaligned; len > 1 with a non-zero element for reset; both bit values present for BitVec"
+    ' Chunk views also through step_by / skip / nth. ',
     dict(builds=["DBG", "UBC"]),
     dict(builds=["DBG", "UBC", "ASAN", "MIRI"], shards={"MIRI": 12, "ASAN": 8}),
     hang="violation",
